@@ -131,6 +131,13 @@ def random_script(rng, name_no, nops, smaller=False):
             lines.append("bnew %d %d" % (h, rng.choice([cap, cap * 2 + 1, 0, cap + 1])))
             hs.append(h)
             lines.append("bsp %d" % h)
+        elif not smaller and rng.random() < 0.04 and [x for x in hs if x >= 5]:
+            # ... and a handle that only opened the buffer goes away again while the creator keeps it: the queue stays, later handles join it
+            h = rng.choice([x for x in hs if x >= 5])
+            hs.remove(h)
+            late.append(h)
+            lines.append("bfree %d" % h)
+            lines.append("bsp %d" % rng.choice(hs))
         h = rng.choice(hs)
         r = rng.random()
         if r < 0.45:
